@@ -26,7 +26,7 @@ func init() {
 		Builds:              []string{"default", "386"}, // the 386 build runs 1/4 of the random classes on a 32-bit target
 		Scale386:            4,
 		Parallel:            4, // cases are judged on 4 goroutines per shard: the library functions are stateless, shared state inside them shows up as wrong verdicts
-		Rule: "(seed, message) pairs: seeds random / all-zero / all-0xff / single-bit; messages of every length 0..2400 (both SHA-512 padding regimes of prefix||M and R||A||M, and beyond any plausible fixed-size buffer), lengths around 2^10..2^17, and random 1..64 KiB. For each pair the monitor compares NewKeyFromSeed, Public, Seed, Sign (twice), PrivateKey.Sign(Hash(0)), GenerateKey(reader) byte for byte with crypto/ed25519 and with the big-integer RFC 8032 signer, checks Verify accepts, pre-hashed options are refused for every hash identifier 1..24, 100, 255 and 65536 (linked into the binary or not), PrivateKey.Sign with a non-nil rand source (fixed bytes, crypto/rand) gives the same deterministic signature, short readers fail; GenerateKey(nil) is called with crypto/rand.Reader replaced (under a lock) by a source delivering known bytes, or failing early, the returned pair must be the RFC 8032 key pair of its own seed half and an error comes without a key (which source a nil reader stands for is observed, not judged: the statement does not fix it). The seed and message are passed as windows into larger buffers (pattern behind the length must survive; the buffers are wiped afterwards and every result handed out must stay what it was), and unrelated Verify calls that are rejected at every stage (undecodable R, undecodable key, S>=L, wrong length) or accepted are interleaved on the same goroutine between the calls. " +
+		Rule: "(seed, message) pairs: seeds random / all-zero / all-0xff / single-bit; messages of every length 0..2400 (both SHA-512 padding regimes of prefix||M and R||A||M, and beyond any plausible fixed-size buffer), lengths around 2^10..2^17 and around 2x / 3x 2^12..2^17, and random 1..64 KiB. For each pair the monitor compares NewKeyFromSeed, Public, Seed, Sign (twice), PrivateKey.Sign(Hash(0)), GenerateKey(reader) byte for byte with crypto/ed25519 and with the big-integer RFC 8032 signer, checks Verify accepts, pre-hashed options are refused for every hash identifier 1..24, 100, 255 and 65536 (linked into the binary or not), PrivateKey.Sign with a non-nil rand source (fixed bytes, crypto/rand) gives the same deterministic signature, short readers fail; GenerateKey(nil) is called with crypto/rand.Reader replaced (under a lock) by a source delivering known bytes, or failing early, the returned pair must be the RFC 8032 key pair of its own seed half and an error comes without a key (which source a nil reader stands for is observed, not judged: the statement does not fix it). The seed and message are passed as windows into larger buffers (pattern behind the length must survive; the buffers are wiped afterwards and every result handed out must stay what it was), and unrelated Verify calls that are rejected at every stage (undecodable R, undecodable key, S>=L, wrong length) or accepted are interleaved on the same goroutine between the calls. " +
 			"Non-trivial: distinct (seed, len(msg)) pairs (all cases).",
 		Assumptions: []string{"crypto/ed25519 and SHA-512 of the Go standard library", "the RFC 8032 model in harness/oracle/ed (self-tested against RFC 8032 vectors)"},
 		SelfTest:    ed.SelfTest,
@@ -410,6 +410,10 @@ func gen(g *fw.Gen) {
 				g.Emit("sign", fw.Pack(seeds(), g.Bytes(1<<uint(k)+d)))
 			}
 		}
+	}
+	// next to multiples (2x, 3x) of powers of two up to 400 KiB: chunked hashing with a wrong last partial chunk
+	for n := g.ShareOf(160, 8000); n > 0; n-- {
+		g.Emit("sign", fw.Pack(seeds(), g.Bytes((2+g.Rng.Intn(2))<<uint(12+g.Rng.Intn(6))+g.Rng.Intn(145)-72)))
 	}
 	for l := 0; l < 32; l++ {
 		if g.Own(l) {
